@@ -52,6 +52,15 @@ CLAIMED['C04'] = ('E1 stepdiff', 'property-based differential testing against an
                   E1_TEXT + 'covers every branch encoding (B/BL/BLX/BX/BXJ/CBZ/TBB/TBH), IT, and PC-reading/PC-writing forms of other families, at instruction '
                   'addresses near 0 and 2^32 and at both Thumb alignments.', E1_NOTE, 'DESIGN.md section 5 C04')
 
+CLAIMED['C02'] = ('E1 stepdiff', 'property-based differential testing against an independent reference interpreter (Hypothesis-driven generation)',
+                  E1_TEXT + 'covers every LDR/STR-family encoding (byte/halfword/word/dual, immediate/literal/register, unprivileged, exclusive) with all P/U/W, '
+                  'bases aimed into / at the edges of / across mapped memory and at 0 / 2^32, alignment 0..3, CPSR.E, SCTLR.A/U, arch 5/6/7, stock and hooked monitors.',
+                  E1_NOTE, 'DESIGN.md section 5 C02')
+CLAIMED['C03'] = ('E1 stepdiff + metamorphic round trip', 'property-based differential testing against a reference interpreter + metamorphic store;load round trips',
+                  E1_TEXT + 'covers LDM/STM IA/IB/DA/DB, PUSH/POP (all encodings), user-bank and exception-return forms, SRS, RFE in every mode; '
+                  'plus a reference-free round trip (store-multiple; clobber; matching load-multiple restores every listed register and the base) for nine encoding pairs.',
+                  E1_NOTE, 'DESIGN.md section 5 C03')
+
 NOT_YET = {}
 
 
@@ -88,7 +97,7 @@ def main():
             'add_only': True,
         },
         'engines': [
-            {'name': 'E1 stepdiff', 'path': 'vf/props', 'serves_properties': ['C01', 'C04'], 'kind_free_text': 'differential stepping of emulate_cycle against the reference model vf/ref'},
+            {'name': 'E1 stepdiff', 'path': 'vf/props', 'serves_properties': ['C01', 'C02', 'C03', 'C04'], 'kind_free_text': 'differential stepping of emulate_cycle against the reference model vf/ref'},
             {'name': 'E2 decodediff', 'path': 'vf/props/decode_check.py', 'serves_properties': ['C06', 'C07'], 'kind_free_text': 'joint path enumeration of decoders and reference encoding tables'},
             {'name': 'E3 unitdiff', 'path': 'vf/props/c17.py', 'serves_properties': ['C17'], 'kind_free_text': 'direct calls of helpers against independent re-implementations'},
             {'name': 'E4 totality', 'path': 'vf/props/c18.py', 'serves_properties': ['C18'], 'kind_free_text': 'validity-predicate fuzzing of emulate_cycle'},
